@@ -231,7 +231,30 @@ func genSeqCase(r *simrt.Rand, p seqProfile) SeqCase {
 			}
 		}
 	}
+	decorateCtx(r, c.Ops)
 	return c
+}
+
+// decorateCtx chooses the contexts the caller passes (a fault kind of its own: the caller's context
+// ends at an arbitrary instant relative to the work the call left behind). One case in three is a
+// caller that gives every call a context of its own and cancels it as soon as the call has
+// returned; independently, about one call in thirty is made with an already cancelled context.
+func decorateCtx(r *simrt.Rand, ops []Op) {
+	percall := r.Intn(3) == 0
+	for i := range ops {
+		switch ops[i].K {
+		case "set", "setr", "create", "get", "getr", "keys", "del", "commit", "rollback":
+			if r.Intn(30) == 0 {
+				ops[i].Ctx = "dead"
+			} else if percall {
+				ops[i].Ctx = "percall"
+			}
+		case "begin":
+			if percall {
+				ops[i].Ctx = "percall"
+			}
+		}
+	}
 }
 
 // deep chain: few keys, very many committed versions, snapshot transactions begun at many
